@@ -56,6 +56,25 @@ Section FieldProofs.
     apply andb_true_iff in H as [H1 H3]. apply orb_true_iff in H5. tauto.
   Qed.
 
+  Lemma semi_keys c o : semi_wf V c o = true -> map fst o = map fst (jc_fields c).
+  Proof. unfold semi_wf. intro H. apply andb_true_iff in H as [H _]. apply list_eqb_str_eq. exact H. Qed.
+
+  Lemma semi_field c o k v : semi_wf V c o = true -> In (k, v) o -> semi_ok V c k v = true.
+  Proof.
+    unfold semi_wf. intros H Hin. apply andb_true_iff in H as [_ H]. rewrite forallb_forall in H.
+    exact (H (k, v) Hin).
+  Qed.
+
+  Lemma wf_semi c o : wf_obj V c o = true -> semi_wf V c o = true.
+  Proof.
+    unfold wf_obj, semi_wf. intro H. apply andb_true_iff in H as [H1 H2]. rewrite H1. cbn [andb].
+    apply forallb_forall. intros [k v] Hin. rewrite forallb_forall in H2. specialize (H2 (k, v) Hin).
+    cbn [fst snd] in *. unfold field_ok in H2. unfold semi_ok. destruct (aget k (jc_fields c)); [|discriminate].
+    apply orb_true_iff in H2 as [H2|H2]; [rewrite H2; reflexivity|].
+    apply andb_true_iff in H2 as [H2 F4]. apply andb_true_iff in H2 as [H2 F3]. apply andb_true_iff in H2 as [F1 F2].
+    rewrite F1, F3, F4. apply orb_true_r.
+  Qed.
+
   Lemma dropped_is_default c o k v : wf_obj V c o = true -> In (k, v) o ->
     dropped (jc_json_drop c) v = true -> aget k (jc_fields c) = Some v.
   Proof.
@@ -67,58 +86,84 @@ Section FieldProofs.
       rewrite Hd in F. discriminate.
   Qed.
 
-  Lemma kept_props c o : cls_ok V c = true -> wf_obj V c o = true ->
+  Lemma kept_props c o : cls_ok V c = true -> semi_wf V c o = true ->
     forall k v, In (k, v) (kept (jc_json_drop c) o) ->
     elem_ok V c k v = true /\ jwfb v = true /\ no_obj v = true /\ str_ok k = true
     /\ ahas k (jc_fields c) = true.
   Proof.
     intros C W k v Hin. unfold kept in Hin. apply filter_In in Hin as [Hin Hd]. cbn [snd] in Hd.
     apply negb_true_iff in Hd.
-    pose proof (wf_field c o k v W Hin) as F. unfold field_ok in F.
+    pose proof (semi_field c o k v W Hin) as F. unfold semi_ok in F.
     destruct (aget k (jc_fields c)) as [d|] eqn:G; [|discriminate].
     pose proof (cls_field c k d C (aget_in _ _ _ G)) as (P1 & P3 & P4 & P5).
     assert (HK : ahas k (jc_fields c) = true) by (unfold ahas; rewrite G; reflexivity).
     apply orb_true_iff in F as [F|F].
     - apply json_eqb_eq in F. subst d. destruct P5 as [P5|P5]; [congruence|]. tauto.
-    - apply andb_true_iff in F as [F F4]. apply andb_true_iff in F as [F F3]. apply andb_true_iff in F as [F1 F2].
+    - apply andb_true_iff in F as [F F4]. apply andb_true_iff in F as [F1 F3].
       tauto.
   Qed.
 
-  Lemma of_dict_kept c o sd : cls_ok V c = true -> wf_obj V c o = true ->
-    Permutation sd (kept (jc_json_drop c) o) -> of_dict V c sd = Ok o.
+  Lemma aget_map_val {A} (f : str -> A -> A) k (o : list (str * A)) :
+    aget k (map (fun kv => (fst kv, f (fst kv) (snd kv))) o) = option_map (f k) (aget k o).
+  Proof.
+    induction o as [|[k0 v0] o IH]; simpl; [reflexivity|].
+    destruct (str_eqb_spec k k0) as [->|N]; [reflexivity|exact IH].
+  Qed.
+
+  Lemma of_dict_kept_norm c o sd : cls_ok V c = true -> semi_wf V c o = true ->
+    Permutation sd (kept (jc_json_drop c) o) -> of_dict V c sd = Ok (norm_obj c o).
   Proof.
     intros C W HP. unfold of_dict, defaults.
-    pose proof (cls_nodup c C) as NDf. pose proof (wf_keys c o W) as K.
+    pose proof (cls_nodup c C) as NDf. pose proof (semi_keys c o W) as K.
     assert (NDo : NoDup (map fst o)) by (rewrite K; exact NDf).
     assert (NDk : NoDup (map fst (kept (jc_json_drop c) o))) by (apply filter_keys_NoDup; exact NDo).
     assert (NDs : NoDup (map fst sd)).
     { eapply Permutation_NoDup; [apply Permutation_sym; apply Permutation_map; exact HP|exact NDk]. }
+    assert (KN : map fst (norm_obj c o) = map fst o) by (unfold norm_obj; rewrite map_map; reflexivity).
     rewrite set_fields_fold.
     - f_equal. symmetry. apply assoc_ext.
-      + rewrite aset_all_keys; [exact K|].
+      + rewrite KN. rewrite aset_all_keys; [exact K|].
         intros [k v] Hin. cbn [fst].
         pose proof (kept_props c o C W k v (Permutation_in _ HP Hin)) as (_ & _ & _ & _ & Q). exact Q.
-      + exact NDo.
+      + rewrite KN. exact NDo.
       + intro k. rewrite (aset_all_get sd _ k NDs).
         rewrite (aget_perm sd _ k HP NDs).
         unfold kept. rewrite (aget_filter (fun v => negb (dropped (jc_json_drop c) v)) k o NDo).
-        destruct (aget k o) as [v|] eqn:G.
+        unfold norm_obj.
+        rewrite (aget_map_val (fun k v => if dropped (jc_json_drop c) v then fld k (jc_fields c) else v) k o).
+        destruct (aget k o) as [v|] eqn:G; cbn [option_map].
         * destruct (dropped (jc_json_drop c) v) eqn:D; simpl; [|reflexivity].
-          symmetry. exact (dropped_is_default c o k v W (aget_in _ _ _ G) D).
+          assert (IN : In k (map fst (jc_fields c))).
+          { rewrite <- K. apply in_map_iff. exists (k, v). split; [reflexivity|apply aget_in; exact G]. }
+          apply ahas_in in IN. unfold ahas in IN. unfold fld.
+          destruct (aget k (jc_fields c)); [reflexivity|discriminate].
         * symmetry. apply aget_none_notin. rewrite <- K. apply aget_none_notin. exact G.
     - intros k v Hin.
       pose proof (kept_props c o C W k v (Permutation_in _ HP Hin)) as (Q1 & _ & _ & _ & Q). tauto.
   Qed.
 
-  Lemma kept_jwfb c o : cls_ok V c = true -> wf_obj V c o = true -> jwfb (JObj (kept (jc_json_drop c) o)) = true.
+  Lemma norm_wf_id c o : cls_ok V c = true -> wf_obj V c o = true -> norm_obj c o = o.
+  Proof.
+    intros C W. unfold norm_obj. rewrite <- (map_id o) at 2. apply map_ext_in. intros [k v] Hin. cbn [fst snd].
+    destruct (dropped (jc_json_drop c) v) eqn:D; [|reflexivity].
+    pose proof (dropped_is_default c o k v W Hin D) as G. unfold fld. rewrite G. reflexivity.
+  Qed.
+
+  Lemma of_dict_kept c o sd : cls_ok V c = true -> wf_obj V c o = true ->
+    Permutation sd (kept (jc_json_drop c) o) -> of_dict V c sd = Ok o.
+  Proof.
+    intros C W HP. rewrite (of_dict_kept_norm c o sd C (wf_semi c o W) HP). rewrite (norm_wf_id c o C W). reflexivity.
+  Qed.
+
+  Lemma kept_jwfb c o : cls_ok V c = true -> semi_wf V c o = true -> jwfb (JObj (kept (jc_json_drop c) o)) = true.
   Proof.
     intros C W. cbn [jwfb]. apply andb_true_iff. split.
     - apply forallb_forall. intros [k v] Hin. cbn [fst snd].
       pose proof (kept_props c o C W k v Hin) as (_ & Q2 & _ & Q4 & _). rewrite Q2, Q4. reflexivity.
-    - apply NoDup_nodup_keys. apply filter_keys_NoDup. rewrite (wf_keys c o W). exact (cls_nodup c C).
+    - apply NoDup_nodup_keys. apply filter_keys_NoDup. rewrite (semi_keys c o W). exact (cls_nodup c C).
   Qed.
 
-  Lemma kept_jsort c o : cls_ok V c = true -> wf_obj V c o = true ->
+  Lemma kept_jsort c o : cls_ok V c = true -> semi_wf V c o = true ->
     jsort (JObj (kept (jc_json_drop c) o)) = JObj (sort_kv (kept (jc_json_drop c) o)).
   Proof.
     intros C W. cbn [jsort]. f_equal. f_equal.
@@ -133,17 +178,18 @@ Section FieldProofs.
     rewrite IH; [reflexivity|]. intros y Hy. apply H. right. exact Hy.
   Qed.
 
-  Lemma kept_all_known c o (sd : obj) : cls_ok V c = true -> wf_obj V c o = true ->
+  Lemma kept_all_known c o (sd : obj) : cls_ok V c = true -> semi_wf V c o = true ->
     Permutation sd (kept (jc_json_drop c) o) -> filter (known_key c) sd = sd.
   Proof.
     intros C W HP. apply filter_all. intros [k v] Hin. unfold known_key. cbn [fst].
     pose proof (kept_props c o C W k v (Permutation_in _ HP Hin)) as (_ & _ & _ & _ & Q). exact Q.
   Qed.
 
-  (* the encoded text of a constructible value decodes to that value; a value with nothing to encode is
-     encoded as '' and decoded as absent *)
-  Theorem field_roundtrip c o : cls_ok V c = true -> wf_obj V c o = true ->
-    from_json V c (Some (to_json c o)) = Ok (if nothing_kept c o && jc_json_blank c then None else Some o).
+  (* encode / decode of ANY value the class accepts (also one with fields the encoder drops): the result is the
+     normalised value -- dropped fields come back as their defaults *)
+  Theorem field_reencode c o : cls_ok V c = true -> semi_wf V c o = true ->
+    from_json V c (Some (to_json c o))
+    = Ok (if nothing_kept c o && jc_json_blank c then None else Some (norm_obj c o)).
   Proof.
     intros C W. unfold to_json, nothing_kept.
     destruct (kept (jc_json_drop c) o) as [|kv d] eqn:K.
@@ -152,7 +198,7 @@ Section FieldProofs.
       change (absent_text (jprint (JObj []))) with false. cbv iota.
       change (jparse (jprint (JObj []))) with (Some (JObj [])). cbv iota.
       unfold of_jv. cbn [filter].
-      rewrite (of_dict_kept c o [] C W); [reflexivity|]. rewrite K. constructor.
+      rewrite (of_dict_kept_norm c o [] C W); [reflexivity|]. rewrite K. constructor.
     - cbn [andb]. rewrite <- K.
       pose proof (kept_jwfb c o C W) as J. pose proof (kept_jsort c o C W) as SJ.
       unfold from_json.
@@ -163,7 +209,15 @@ Section FieldProofs.
       rewrite (jparse_jdumps true _ J). rewrite SJ. unfold of_jv.
       pose proof (sort_kv_perm (kept (jc_json_drop c) o)) as HP.
       rewrite (kept_all_known c o _ C W HP).
-      rewrite (of_dict_kept c o _ C W HP). reflexivity.
+      rewrite (of_dict_kept_norm c o _ C W HP). reflexivity.
+  Qed.
+
+  (* the encoded text of a constructible value decodes to that value; a value with nothing to encode is
+     encoded as '' and decoded as absent *)
+  Theorem field_roundtrip c o : cls_ok V c = true -> wf_obj V c o = true ->
+    from_json V c (Some (to_json c o)) = Ok (if nothing_kept c o && jc_json_blank c then None else Some o).
+  Proof.
+    intros C W. rewrite (field_reencode c o C (wf_semi c o W)). rewrite (norm_wf_id c o C W). reflexivity.
   Qed.
 
   (* canonical: re-encoding what was decoded gives the identical text *)
